@@ -72,9 +72,14 @@ def site_model(draw, maxK=6):
 @st.composite
 def tip_heights(draw, n):
     """tip heights with minimum 0; small multiples of a grid so that ties are common"""
-    mode = draw(st.sampled_from(["iso", "hetero", "hetero", "ties"]))
+    mode = draw(st.sampled_from(["iso", "hetero", "hetero", "ties", "cont"]))
     if mode == "iso":
         return [0.0] * n
+    if mode == "cont":
+        # decimal dates that are not representable in single precision
+        h = [draw(fl(0.0, 30.0)) for _ in range(n)]
+        m = min(h)
+        return [x - m for x in h]
     step = draw(st.sampled_from([0.5, 1.0, 0.25, 3.0]))
     hi = 3 if mode == "ties" else 12
     h = [draw(st.integers(0, hi)) * step for _ in range(n)]
@@ -315,6 +320,8 @@ def like_spec(c, ids=None):
           "site_pattern": {"id": "sp", "type": "SitePattern", "alignment": {"id": "aln", "type": "Alignment",
                            "datatype": "nucleotide" if c["family"] == "nucleotide" else "dt", "taxa": "taxa", "sequences": seqs}},
           "use_ambiguities": c["tip"] == "amb", "use_tip_states": c["tip"] == "states"}
+    if c.get("indices"):
+        lk["site_pattern"]["indices"] = c["indices"]
     if not kind.startswith("unrooted"):
         ck = t["clock"]
         if ck["kind"] == "strict":
